@@ -39,8 +39,14 @@ def main():
     if meta["applies"] and meta["builds_with_hooks"] and meta["baseline_150"]:
         sh(f"mkdir -p {vdir} && rsync -a --delete --exclude target --exclude .work --exclude replays --exclude .git --exclude evidence --exclude mutants --exclude seeded /verif/ {vdir}/ && "
            f"sed -i 's#path = \"/repo\"#path = \"{wt}\"#' {vdir}/harness/Cargo.toml {vdir}/sched/Cargo.toml {vdir}/alias/Cargo.toml")
-        for i in range(1, 21):
-            chk = f"C{i:02d}"
+        # REFAC_CHECKS="C13 C14": re-run only these (results of the other checks are kept from the earlier run)
+        only = os.environ.get("REFAC_CHECKS", "").split()
+        if only:
+            try:
+                results = json.load(open(f"/verif/refactorings/{rid}/meta.json")).get("checks", {})
+            except (OSError, ValueError):
+                results = {}
+        for chk in (only or [f"C{i:02d}" for i in range(1, 21)]):
             t0 = time.time()
             c, o = sh(f"./check {chk} --tier quick 2>&1 | tail -8", cwd=vdir, timeout=3000)
             lines = [l for l in o.splitlines() if l.startswith("VIOLATION") or l.startswith("MACHINERY") or l.startswith("  ")]
